@@ -355,7 +355,7 @@ def must_raise(text):
 
 
 STYLES = ["spaced", "newlines", "comments", "colours", "inline-colours", "comment-before-tree", "comment-after-label", "mixed"]
-BAD_WORDS = ["abc", "1x", "1.2.3"]
+BAD_WORDS = ["abc", "1x", "1.2.3", "1_0", "1\u0663", "3,5", "2.5E-"]  # incl. words that Python float() would accept but the ASC number format does not
 
 
 def check_doc(ctx, rep, doc, tier_full=True, deco_seeds=(1,), group="doc", styles=None, mixed_stride=1):
